@@ -46,6 +46,9 @@ def run (id n : Nat) : List Pgid := (List.range n).map (id + ·)
 
 def diskGet (d : List (Pgid × Nat)) (p : Pgid) : Option Nat := (d.find? (·.1 == p)).map (·.2)
 
+/-- the stamp a version records for a page it references -/
+def stampOf (v : Version) (p : Pgid) : Option Nat := (v.content.find? (·.1 == p)).map (·.2)
+
 inductive Ev
   | beginR                                  -- DB.beginTx: pins `cur`
   | endR (txid : Nat)                       -- Tx.Rollback of a reader at that version
@@ -90,8 +93,10 @@ def step (s : St) : Ev → Option St
     match s.w with
     | none => none
     | some w =>
-      -- the code frees only pages of the version it started from, each at most once
-      if (run id (ovf+1)).all (fun p => s.cur.used.contains p && !w.freed.contains p) then
+      -- the code frees only pages of the version it started from, each at most once, and a
+      -- freed run (page + overflow) is always one page image written by one transaction
+      if (run id (ovf+1)).all (fun p => s.cur.used.contains p && !w.freed.contains p &&
+            (stampOf s.cur p == stampOf s.cur id)) then
         match s.fl.free w.txid id ovf with
         | none => none
         | some fl' => some { s with fl := fl', w := some { w with freed := w.freed ++ run id (ovf+1) } }
